@@ -257,10 +257,50 @@ void run_case(const uint8_t *data, size_t size, CaseCtx &ctx) {
     live.exec();
   analyzer_t a(cfg, top.make_top(), use_liveness ? &live : nullptr, fp);
   typename analyzer_t::assumption_map_t assumptions;
+  // assumption map and alternative start block (decoded from the tail of the tape): a
+  // state that enters a block violating its assumption is not described by the analysis;
+  // admissible start blocks are the entry and blocks with empty WTO nesting (C06's wording)
+  std::map<label_t, cst_t> assume_cst;
+  label_t start = cfg.entry();
+  {
+    unsigned nassum = t.tail_pick(4) == 3 ? 1 + t.tail_pick(2) : 0;
+    for (unsigned q = 0; q < nassum && !prog.ints.empty(); q++) {
+      label_t l = prog.labels[t.tail_pick((unsigned)prog.labels.size())];
+      const var_t &x = prog.ints[t.tail_pick((unsigned)prog.ints.size())];
+      z_number c((int64_t)t.tail_pick(9) - 4);
+      cst_t cst = t.tail_flag() ? cst_t(lin_t(x) <= lin_t(c)) : cst_t(lin_t(x) >= lin_t(c));
+      if (assume_cst.count(l))
+        continue;
+      assume_cst.emplace(l, cst);
+      dom_t av = top.make_top();
+      csts_t sys;
+      sys += cst;
+      av += sys;
+      assumptions.insert({l, av});
+      ctx.log << "assumption[" << l << "]: " << to_str(cst) << "\n";
+    }
+    if (t.tail_pick(4) == 3) {
+      std::vector<label_t> adm;
+      for (auto &l : prog.labels) {
+        if (l == cfg.entry())
+          continue;
+        auto nest = a.get_wto().nesting(l);
+        if (nest && nest->begin() == nest->end())
+          adm.push_back(l);
+      }
+      if (!adm.empty()) {
+        start = adm[t.tail_pick((unsigned)adm.size())];
+        ctx.log << "start block: " << start << "\n";
+        R().cls("alt_start_block");
+      }
+    }
+    if (!assume_cst.empty())
+      R().cls("with_assumption_map");
+  }
   g_step_count = 0;
   g_step_budget = 5000000;
   try {
-    a.run(cfg.entry(), init, assumptions);
+    a.run(start, init, assumptions);
   } catch (const step_budget_exceeded &e) {
     g_step_budget = ~0UL;
     VCHECK(ctx, "C05", false, "fwd_analysis_step_budget", "forward analysis exceeded " << e.steps << " fixpoint/transfer events (suspected non-termination)");
@@ -325,7 +365,16 @@ void run_case(const uint8_t *data, size_t size, CaseCtx &ctx) {
       kv.second = in.wrapv(kv.second, kv.first);
     in.wrap_events = 0;
 #endif
-    Stop why = in.run(cfg, cfg.entry(), s);
+    if (!assume_cst.empty())
+      in.block_filter = [&](const label_t &l, const State &st) {
+        auto it = assume_cst.find(l);
+        if (it == assume_cst.end())
+          return true;
+        bool def;
+        bool h = Interp::holds_in(it->second, st, def);
+        return !def || h;
+      };
+    Stop why = in.run(cfg, start, s);
     wrapped_execs += in.wrap_events ? 1 : 0;
     total_blocks += in.path.size();
     if (in.path.size() >= 3)
